@@ -438,4 +438,6 @@ MUTANTS += [
         (NP, "            if not self._eager:\n                self._queue_shell_states()\n", "")]),
     # (dropping the memo test in _save_shell is behaviour-preserving: pickle's save_reduce itself answers an already
     #  memoized object with POP + GET - not a mutant)
+    dict(id="c15_revert_fix_d26", props=["C15"], edits=[
+        (PV, "                if not (\n                    isinstance(j, int)\n                    and 0 <= j < len(verts)\n                    and verts[j] is other\n                ):\n", "                if False:\n")]),
 ]
